@@ -421,13 +421,23 @@ pub fn run(plan: &J, given: Option<&[J]>, rng: &mut Rng, max_ops: usize, focus: 
             "reader_read" => {
                 let n = op.us("n").min(1 << 16);
                 let mut dst = vec![0x66u8; n];
+                let mut acc = [0usize; 4];
                 let r = catch_unwind(AssertUnwindSafe(|| {
                     let mut rd = (&mut node).reader();
-                    rd.read(&mut dst)
+                    acc[0] = rd.get_ref().remaining();
+                    let got = rd.read(&mut dst);
+                    acc[1] = rd.get_ref().remaining();
+                    acc[2] = rd.get_mut().remaining();
+                    let inner = rd.into_inner();
+                    acc[3] = inner.remaining();
+                    got
                 }));
                 match r {
                     Ok(Ok(got)) => {
                         let want = n.min(rest.len());
+                        if acc[0] != rest.len() || acc[1..].iter().any(|&x| x != rest.len().wrapping_sub(got)) {
+                            cx.v(&["C12"], "reader-accessors", format!("Reader over {} bytes, read returned {}: get_ref/get_ref/get_mut/into_inner show remaining {:?}", rest.len(), got, acc));
+                        }
                         if got != want {
                             cx.v(&["C12"], "reader-read-count", format!("Reader::read(buf of {}) with {} available returned {}", n, rest.len(), got));
                         } else if dst[..got] != rest[..got] {
